@@ -244,6 +244,10 @@ func c18Batch(r *vc.Run, bi int, onlyCare bool, n int) {
 	rnd := vc.NewRand(r.Seed, fmt.Sprintf("c18-%d", bi))
 	for i := 0; i < n; i++ {
 		c := c18GenCase(rnd, i, fmt.Sprintf("i%d_", bi), onlyCare)
+		// the server's auto_increment_increment differs from case to case (it is a dynamic server variable)
+		inc := []int64{1, 2, 1, 5, 3}[i%5]
+		env.db.E.SetAutoIncIncrement(inc)
+		c.Feat["auto_increment_increment"] = fmt.Sprint(inc)
 		env.install(c)
 		o := env.runGtx(c, "nil", nil)
 		if o.CallErr != nil {
